@@ -1,1 +1,329 @@
-"""placeholder"""
+"""C04 - a stalled synchronized consumer stalls its producers: the flag discipline that makes any bound possible."""
+
+from __future__ import annotations
+
+import ast
+import re
+
+from . import rule
+from .zmq import anchors, Z, MQF, ret_const, stmt_list_containing
+from .c02 import data_publishes
+from ..model import Unresolved, walk_scope, parent, enclosing_function, qualname
+from ..paths import U, Path, Evaluator
+from .. import q
+
+
+def client_constructions(za):
+    """Every construction of the Client NamedTuple in zeromq.py -> (call, requested-argument)."""
+    out = []
+    idx = za.client_fields.index('requested')
+    for c in q.calls_in(za.mod.tree):
+        f = U(c.func)
+        if f.endswith('Client') and (f.split('.')[-1] == 'Client'):
+            arg = c.args[idx] if len(c.args) > idx else q.kwarg(c, 'requested')
+            out.append((c, arg))
+    return out
+
+
+@rule('C04.R1', '`requested` is set only by a request message and cleared by every publish that includes the client')
+def r1(rr, repo):
+    za = anchors(repo)
+    cons = client_constructions(za)
+    rr.floor('constructions of ZMQSender.Client', len(cons), 2, za.mod, za.S_cls)
+    n_true = n_false = 0
+    for c, arg in cons:
+        fn = enclosing_function(c)
+        ok_c, v = Evaluator.const_of(arg) if arg is not None else (False, None)
+        if ok_c and v is True:
+            n_true += 1
+            rr.ob('a Client marked requested is only built while handling a request message (poll_recv)', fn is za.S_poll, za.mod, c, key='req-true-site')
+        elif ok_c and v is False:
+            n_false += 1
+            rr.ob('a Client marked not-requested is only built by the publishing code (send_maybe)', fn is za.S_maybe, za.mod, c, key='req-false-site')
+        else:
+            rr.violated('a Client is built with a `requested` mark that is neither the literal True (request) nor False (publish)', za.mod, c, key=f'req-other|{U(arg) if arg is not None else None}')
+    rr.floor('request-side constructions', n_true, 1, za.mod, za.S_poll)
+    rr.floor('publish-side constructions', n_false, 1, za.mod, za.S_maybe)
+    idx = za.client_fields.index('requested')
+    k = 0
+    for p in za.paths('poll'):
+        for e in p.events:
+            if e.kind == 'store' and e.term.startswith('self.clients[') and isinstance(e.value, ast.Call) and len(e.value.args) > idx \
+                    and Evaluator.const_of(e.value.args[idx]) == (True, True):
+                k += 1
+                ok = 'recv_multipart()' in e.term and ("['cid']" in e.term or '["cid"]' in e.term)
+                rr.ob('the requested mark is stored under the id carried by the request message just received', ok, za.mod, e.node, witness=e.term[:200], key='req-keyed')
+    rr.floor('stores of a requested Client in poll_recv', k, 1, za.mod, za.S_poll)
+    # cleared by every publish
+    m = 0
+    for p in za.paths('maybe'):
+        pubs = data_publishes(p)
+        st = [e for e in p.events if e.kind == 'store' and e.term == 'self.min_send_id']
+        if not st:
+            continue
+        m += 1
+        first_pub = min([p.events.index(e) for e in p.events if e.kind == 'call' and e.term.endswith('.send_multipart') and e in pubs] + [p.events.index(st[-1])])
+        loops = [e for e in p.events if e.kind == 'for' and p.events.index(e) < first_pub]
+        clear = [e for e in p.events if e.kind == 'store' and e.term.startswith('self.clients[') and isinstance(e.value, ast.Call)
+                 and len(e.value.args) > idx and Evaluator.const_of(e.value.args[idx]) == (True, False) and p.events.index(e) < first_pub]
+        bal = p.facts.get('truthy(self.balance)')
+        cl_loops = [e for e in loops if 'self.clients.items()' in e.term]
+        if not cl_loops:
+            rr.violated('a publishing path does not walk the clients it publishes to', za.mod, st[-1].node, witness=p.pc_text(), key='clear-noloop')
+            continue
+        loop = cl_loops[-1]
+        iters = [v for kk, v in p.pc if kk.startswith('iterations(') and v != 0]
+        zero = loop.args[0] == 'zero'
+        if not zero:
+            rr.ob('every publish first rewrites the clients it includes with requested=False', bool(clear), za.mod, loop.node, witness=p.pc_text(), key='cleared')
+        if bal is False:
+            rr.ob('an unbalanced publish clears all clients (list(clients.items()))', loop.term == 'list(self.clients.items())', za.mod, loop.node, witness=loop.term, key='clear-all')
+        elif bal is True:
+            ok = isinstance(loop.value, ast.ListComp) and any(' is ' in U(i) and 'pull' in U(i) for g in loop.value.generators for i in g.ifs)
+            rr.ob("a balanced publish clears exactly the chosen output's clients (pull is out_pull)", ok, za.mod, loop.node, witness=loop.term[:200], key='clear-chosen')
+    rr.floor('publishing paths', m, 1, za.mod, za.S_maybe)
+
+
+def client_loop(za):
+    loops = [n for n in walk_scope(za.S_poll) if isinstance(n, ast.For) and 'clients.items()' in U(n.iter)]
+    if len(loops) != 1:
+        raise Unresolved(f'{Z}: poll_recv: expected one loop over clients.items(), found {len(loops)}')
+    return loops[0]
+
+
+def client_loop_paths(za):
+    loop = client_loop(za)
+    ev = za.ev()
+    start = za.start(za.S_poll)
+    return loop, ev.run(loop.body, _bind_target(ev, loop, start))
+
+
+def _bind_target(ev, loop, path):
+    it = ev.R(loop.iter, path)
+    elem = ast.Call(func=ast.Name(id='__elem__', ctx=ast.Load()), args=[it], keywords=[])
+    ev.assign_target(loop.target, elem, path, loop)
+    path.events.clear()
+    return path
+
+
+def field_fact(za, p: Path, field: str, upto=None):
+    """truthiness fact of the unpacked Client field on a path of the client loop."""
+    i = za.client_fields.index(field)
+    pcs = p.pc if upto is None else p.pc[:upto]
+    for kk, v in pcs:
+        if kk.startswith('truthy(__elem__(') and kk.endswith(f'[1][{i}])'):
+            return v
+    return None
+
+
+def timed_out(za, p: Path, upto=None):
+    i = za.client_fields.index('t_last')
+    pcs = p.pc if upto is None else p.pc[:upto]
+    for kk, v in pcs:
+        if kk.startswith('ord(') and f'[1][{i}]' in kk:
+            # key is ord(a, b) with sorted terms; find which side is t_last
+            inner = kk[4:-1]
+            a_is_tlast = inner.startswith('__elem__(') and f'[1][{i}], ' in inner[:inner.find(f'[1][{i}]') + 8]
+            rel = v if a_is_tlast else {'<': '>', '>': '<', '=': '='}[v]
+            return rel == '<', kk
+    return None, None
+
+
+@rule('C04.R2', 'per-client decision table of poll_recv: a live, non-ephemeral client without an unanswered request blocks the send '
+                '(or its output, when balanced); a balanced output needs a requested client')
+def r2(rr, repo):
+    za = anchors(repo)
+    loop, paths = client_loop_paths(za)
+    rr.paths += len(paths)
+    n = 0
+    for p in paths:
+        to, tk = timed_out(za, p)
+        bal = p.facts.get('truthy(self.balance)')
+        req = field_fact(za, p, 'requested')
+        eph = field_fact(za, p, 'ephemeral')
+        blocks = [e for e in p.events if e.kind == 'bind' and e.term == 'do_send' and e.args[0] == 'False']
+        if to is None:
+            rr.unresolved('client loop path without a timeout comparison', za.mod, loop, witness=p.pc_text(), key='no-timeout-test')
+            continue
+        if to:
+            continue
+        if bal is False:
+            if req is False and eph is False:
+                n += 1
+                rr.ob('unbalanced: a live synchronized client that has not asked again forces do_send = False', bool(blocks), za.mod, loop, witness=p.pc_text(), key='block-unrequested')
+            elif blocks:
+                rr.ob('unbalanced: only an unrequested non-ephemeral client may block', False, za.mod, blocks[0].node, witness=p.pc_text(), key=f'block-spurious|req={req}|eph={eph}')
+            elif req is None and eph is None:
+                rr.violated('unbalanced: the client loop does not look at requested/ephemeral', za.mod, loop, witness=p.pc_text(), key='block-untested')
+        elif bal is True:
+            st = [e for e in p.events if e.kind == 'store' and re.match(r'^\{\}\[|^outputs\[', e.term)]
+            if not st:
+                rr.violated('balanced: the per-output summary is not updated for a live client', za.mod, loop, witness=p.pc_text(), key='bal-nostore')
+                continue
+            n += 1
+            v = st[-1].value
+            i_req = za.client_fields.index('requested')
+            i_eph = za.client_fields.index('ephemeral')
+            ok = isinstance(v, ast.Tuple) and len(v.elts) == 3
+            if ok:
+                first, second = v.elts[0], v.elts[1]
+                f_ok = isinstance(first, ast.BoolOp) and isinstance(first.op, ast.And) and len(first.values) == 2 and \
+                    isinstance(first.values[1], ast.BoolOp) and isinstance(first.values[1].op, ast.Or) and \
+                    sorted(U(x)[-6:] for x in first.values[1].values) == sorted([f'[1][{i_req}]', f'[1][{i_eph}]'])
+                s_ok = isinstance(second, ast.BinOp) and isinstance(second.op, ast.Add) and U(second.right).endswith(f'[1][{i_req}]')
+                rr.ob('balanced: an output may send only while all its clients are requested-or-ephemeral (out_do_send and (requested or ephemeral))', f_ok, za.mod, st[-1].node, witness=U(first)[-160:], key='bal-do-send')
+                rr.ob('balanced: the number of requested clients of the output is counted (out_nrequested + requested)', s_ok, za.mod, st[-1].node, witness=U(second)[-120:], key='bal-nrequested')
+            else:
+                rr.unresolved('balanced: per-output summary is not a 3-tuple', za.mod, st[-1].node, key='bal-shape')
+    rr.floor('judged rows of the per-client table', n, 2, za.mod, loop)
+    # balanced: no output ready => do_send False
+    _, lst, idx = stmt_list_containing(loop)
+    tail = [s for s in lst[idx + 1:] if isinstance(s, ast.If)]
+    ok = False
+    for s in tail:
+        t = U(s.test)
+        if 'balance' in t and 'all(' in t and 'not (out_do_send and out_nrequested)' in t.replace('  ', ' ') and any(isinstance(b, ast.Assign) and U(b) == 'do_send = False' for b in s.body):
+            ok = True
+            node = s
+    rr.ob('balanced: when no output has (all clients ready and at least one requested) nothing is sent', ok, za.mod, tail[0] if tail else loop, key='bal-none-ready')
+
+
+def push_call_sites(repo):
+    """All calls that pass a `push` argument (keyword, or 4th positional of a .send) anywhere in the package."""
+    out = []
+    for mod, c in q.all_package_calls(repo):
+        if isinstance(c.func, ast.Attribute) and c.func.attr == 'send':
+            kw = q.kwarg(c, 'push')
+            if kw is not None:
+                out.append((mod, c, kw))
+            elif len(c.args) >= 4:
+                out.append((mod, c, c.args[3]))
+    return out
+
+
+_POSITIVE_CONTROL = "self.sender.send(callback, None, timeout, push=True)\nself.sender.send(cb, st, 10, True)\n"
+
+
+@rule('C04.R3', 'no publish without permission: send_maybe reaches the data publish only when all consumers asked (do_send and clients) or '
+                'push; push is passed only by the dedicated metrics sender')
+def r3(rr, repo):
+    za = anchors(repo)
+    n = 0
+    for p in za.paths('maybe'):
+        pubs = data_publishes(p)
+        st = [e for e in p.events if e.kind == 'store' and e.term == 'self.min_send_id']
+        if not (pubs or st):
+            continue
+        n += 1
+        e = (pubs or st)[0]
+        pc = dict(p.pc[:e.pc_len])
+        perm = (pc.get('truthy(do_send)') is True and pc.get('truthy(self.clients)') is True) or pc.get('truthy(push)') is True
+        rr.ob('a publish happens only with permission ((do_send and clients) or push)', perm, za.mod, e.node, witness=p.pc_text(e.pc_len), key='permission')
+    rr.floor('publishing paths', n, 1, za.mod, za.S_maybe)
+    # positive control for the site detector
+    ctrl = ast.parse(_POSITIVE_CONTROL)
+    found = 0
+    for c in ast.walk(ctrl):
+        if isinstance(c, ast.Call) and isinstance(c.func, ast.Attribute) and c.func.attr == 'send' and (q.kwarg(c, 'push') is not None or len(c.args) >= 4):
+            found += 1
+    rr.ob('positive control: the push-site detector recognises keyword and positional forms', found == 2, key='control')
+    sites = push_call_sites(repo)
+    mqm, mq_send = repo.find(f'{MQF}::MQ.send')
+    for mod, c, val in sites:
+        recv = U(c.func.value)
+        ok = recv == 'self.metrics_sender'
+        rr.ob('push is passed only to the dedicated metrics sender', ok, mod, c, witness=U(c)[:160], key=f'push-site|{recv}')
+    main = [c for c in q.attr_calls(mq_send, 'send') if U(c.func) == 'self.sender.send']
+    rr.floor('main sender call sites in MQ.send', len(main), 1, mqm, mq_send)
+    for c in main:
+        rr.ob('the main sender is never asked to push', q.kwarg(c, 'push') is None and len(c.args) < 4, mqm, c, key='main-no-push')
+    default = za.S_send.args.defaults
+    params = q.func_params(za.S_send)
+    if 'push' in params:
+        d = default[len(default) - (len(za.S_send.args.args) - za.S_send.args.args.index(next(a for a in za.S_send.args.args if a.arg == 'push')))]
+        rr.ob('push defaults to False', isinstance(d, ast.Constant) and d.value is False, za.mod, za.S_send, key='push-default')
+
+
+def recv_loop(za):
+    loops = [s for s in za.R_recv.body if isinstance(s, ast.While)]
+    if len(loops) != 1:
+        raise Unresolved(f'{Z}: ZMQReceiver.recv: expected one top-level wait loop, found {len(loops)}')
+    return loops[0]
+
+
+def recv_loop_paths(za):
+    loop = recv_loop(za)
+    ev = za.ev(unroll_for=1)
+    start = za.start(None)
+    start.env.update(q.outer_aliases(za.R_once))   # aliases defined at the top of recv()
+    return loop, ev.run(loop.body, start)
+
+
+@rule('C04.R4', 'a consumer asks only from recv(): one optional prefetch when a set is returned, one request per wait interval; '
+                'send_push is used only for requests, CLOSE and OOB')
+def r4(rr, repo):
+    za = anchors(repo)
+    sites = [c for c in q.attr_calls(za.R_cls, 'send_push')]
+    allowed = {za.R_req, za.R_destroy}
+    oob = repo.find(f'{Z}::ZMQReceiver.send_oob')[1]
+    allowed.add(oob)
+    rr.floor('send_push call sites', len(sites), 3, za.mod, za.R_cls)
+    for c in sites:
+        rr.ob('send_push is called only from request(), destroy() (CLOSE) and send_oob()', enclosing_function(c) in allowed, za.mod, c, key=f'send_push-site|{qualname(c)}')
+    # sockets' own send only inside send_push
+    for c in q.attr_calls(za.R_cls, 'send_multipart'):
+        rr.ob('the request socket is written only by Sender.send_push', enclosing_function(c) is za.RS_send_push, za.mod, c, key='push-socket-writer')
+    reqs = [c for c in q.name_calls(za.R_recv, za.R_req.name)]
+    rr.ob('request() has exactly two call sites, both in recv() itself', len(reqs) == 2 and all(enclosing_function(c) is za.R_recv for c in reqs), za.mod, za.R_recv,
+          witness=f'{len(reqs)} sites', key='request-sites')
+    loop, paths = recv_loop_paths(za)
+    rr.paths += len(paths)
+    n1 = n2 = 0
+    for p in paths:
+        ga = p.facts.get('truthy(got_all)')
+        rq = [e for e in p.events if e.kind == 'call' and e.term in (za.R_req.name, f'<def {za.R_req.name}>')]
+        ro = [e for e in p.events if e.kind == 'call' and e.term in (za.R_once.name, f'<def {za.R_once.name}>')]
+        if ga is True:
+            n1 += 1
+            done = p.outcome is not None and p.outcome[0] in ('return', 'raise')
+            rr.ob('a complete set ends recv() (return) after at most one prefetch request', len(rq) <= 1 and done and not ro, za.mod, loop, witness=f'{p.pc_text()} => {p.outcome_text()[:80]}', key='prefetch-once')
+        elif ga is False:
+            if p.outcome is not None and p.outcome[0] == 'return':
+                continue  # timeout
+            n2 += 1
+            ok = len(rq) == 1 and len(ro) == 1 and p.events.index(rq[0]) < p.events.index(ro[0])
+            rr.ob('while waiting: exactly one request, then one bounded wait (recv_once) per loop iteration', ok, za.mod, loop, witness=f'{p.pc_text()}', key='one-request-per-wait')
+            if ro:
+                a = ro[0].args[0] if ro[0].args else ''
+                rr.ob('the wait is bounded by the poll interval (ZMQ_POLL_TIMEOUT or min(remaining, ZMQ_POLL_TIMEOUT))', 'ZMQ_POLL_TIMEOUT' in a, za.mod, ro[0].node, witness=a, key='wait-bounded')
+    rr.floor('returning paths of the wait loop', n1, 1, za.mod, loop)
+    rr.floor('waiting paths of the wait loop', n2, 1, za.mod, loop)
+
+
+@rule('C04.R5', 'a silent consumer stops being waited for only by CLOSE or after ZMQ_CONN_TIMEOUT without any message')
+def r5(rr, repo):
+    za = anchors(repo)
+    dels = [n for n in ast.walk(za.S_cls) if isinstance(n, ast.Delete) and any('clients[' in U(t) for t in n.targets)]
+    rr.ob('clients are removed at exactly two places (CLOSE, timeout)', len(dels) == 2 and all(enclosing_function(d) is za.S_poll for d in dels), za.mod, za.S_poll, witness=f'{len(dels)} sites', key='del-sites')
+    seen = set()
+    for p in za.paths('poll'):
+        for e in p.events:
+            if e.kind == 'del' and e.term.startswith('self.clients['):
+                pc = p.pc[:e.pc_len]
+                close = any(kk.startswith('eq(') and (kk.startswith('eq(-3,') or 'MSG_ID_CLOSE' in kk) and v is True for kk, v in pc)
+                i = za.client_fields.index('t_last')
+                tmo = [(kk, v) for kk, v in pc if kk.startswith('ord(') and f'[1][{i}]' in kk and 'ZMQ_CONN_TIMEOUT' in kk]
+                if close:
+                    seen.add('close')
+                    rr.holds('removal on an explicit CLOSE from that client', za.mod, e.node, key='del-close')
+                elif tmo:
+                    kk, v = tmo[-1]
+                    inner = kk[4:-1]
+                    a_is_tlast = inner.startswith('__elem__(')
+                    rel = v if a_is_tlast else {'<': '>', '>': '<', '=': '='}[v]
+                    seen.add('timeout')
+                    ok = rel == '<' and re.search(r'- ZMQ_CONN_TIMEOUT\)?$', inner) is not None
+                    rr.ob('removal when the last message is older than now - ZMQ_CONN_TIMEOUT', ok, za.mod, e.node, witness=kk[-120:] + f' = {v}', key='del-timeout')
+                else:
+                    rr.violated('a client is dropped from the wait set without CLOSE or connection timeout', za.mod, e.node, witness=p.pc_text(e.pc_len)[-300:], key='del-other')
+    rr.floor('kinds of client removal reached (close, timeout)', len(seen), 2, za.mod, za.S_poll)
